@@ -5,6 +5,12 @@ HERE = os.path.dirname(os.path.dirname(os.path.abspath(__file__)))
 sys.path.insert(0, HERE)
 from vf.manifest_table import CHECKS, NOT_APPLICABLE, ENGINES, FIX_COMMITS  # noqa
 
+import subprocess
+try:
+    FIX_COMMITS = subprocess.check_output(["git", "-C", "/repo", "log", "--reverse", "--format=%h %s", "--grep=^fix:"], text=True).strip().splitlines()
+    FIX_COMMITS = [l.split()[0] for l in FIX_COMMITS if l.split(" ", 1)[1].startswith("fix:")]
+except Exception:
+    pass
 props = [json.loads(l) for l in open(os.path.join(HERE, "properties.jsonl"))]
 ids = [p["id"] for p in props]
 checks = []
